@@ -645,6 +645,14 @@ func (s *Synth) dynamic(final bool, toks []tok, o SynthOpts) {
 		ll2[256] = 0
 		ll = ll2
 		s.done = true
+	case fault == "oversubscribed" && s.r.Intn(2) == 0:
+		// over-subscribed ONLY through a 15-bit code: the complete distance code {1, 1} plus one code of length 15
+		// (the Kraft sum exceeds 1 by 2^-15; a check that stops one length short accepts it)
+		dl2 := make([]int, 30)
+		dl2[0], dl2[1], dl2[2+s.r.Intn(3)] = 1, 1, 15
+		dl = dl2
+		hdist = 5 + s.r.Intn(4)
+		s.done = true
 	case fault == "oversubscribed":
 		ll2 := append([]int{}, ll...)
 		// shorten one code: Kraft sum > 1
